@@ -554,6 +554,187 @@ def ast_formula(rng, d, scope, cnt):
     return c(*[ast_formula(rng, d - 1, scope, cnt) for _ in range(rng.choice([2, 2, 3, 4]))])
 
 
+
+# ---------------------------------------------------------------- core fragment: parse_core <-> parse_isla
+def atom_words(text):
+    """mirror of ParseCore.atom_words: maximal runs of non-delimiter characters outside string literals"""
+    words, acc, sm = [], "", "N"
+    for ch in text:
+        if sm == "S":
+            sm = "N" if ch == '"' else "B" if ch == "\\" else "S"
+        elif sm == "B":
+            sm = "S"
+        elif ch == '"':
+            if acc:
+                words.append(acc)
+            acc, sm = "", "S"
+        elif ch in ' \n\t\r(),:;':
+            if acc:
+                words.append(acc)
+            acc = ""
+        else:
+            acc += ch
+    if acc:
+        words.append(acc)
+    return words
+
+
+def g_core(f, info):
+    """Gallina literal of f with every SMT atom kept as text: (SVar text, vars); vars = the atom's free variables
+    ordered by the first occurrence of their names as words of the text (SMTFormula.free_variables_ is built from
+    a Python set: its order carries no information; SMTFormula.__eq__ ignores it)"""
+    if isinstance(f, SMTFormula):
+        if f.substitutions or f.instantiated_variables:
+            raise Unsupported("instantiated SMT formula")
+        text = smt_expr_to_str(f.formula)
+        fv = list(f.free_variables_)
+        order = []
+        for w in atom_words(text):
+            for v in fv:
+                if v.name == w and v not in order:
+                    order.append(v)
+        order += [v for v in fv if v not in order]
+        info["atoms"] += 1
+        return f"(FSmt (SVar {g_str(text)}, {g_list([g_var(v) for v in order])}))"
+    if isinstance(f, (StructuralPredicateFormula, SemanticPredicateFormula)):
+        c = "FSPred" if isinstance(f, StructuralPredicateFormula) else "FSemPred"
+        info["preds"] += 1
+        return f"({c} {g_str(f.predicate.name)} {g_list([g_parg(a) for a in f.args])})"
+    if isinstance(f, NegatedFormula):
+        info["neg"] = info.get("neg", 0) + 1
+        return f"(FNot {g_core(f.args[0], info)})"
+    if isinstance(f, (ConjunctiveFormula, DisjunctiveFormula)):
+        c = "FAnd" if isinstance(f, ConjunctiveFormula) else "FOr"
+        info["conn"] += 1
+        return f"({c} {g_list([g_core(a, info) for a in f.args])})"
+    if isinstance(f, (ForallFormula, ExistsFormula)):
+        c = "FForall" if isinstance(f, ForallFormula) else "FExists"
+        info["quant"] += 1
+        if isinstance(f.in_variable, DerivationTree):
+            raise Unsupported("tree in-variable")
+        return (f"({c} {g_var(f.bound_variable)} (InVar {g_var(f.in_variable)}) "
+                f"{g_mexpr(f.bind_expression, info)} {g_core(f.inner_formula, info)})")
+    if isinstance(f, (ForallIntFormula, ExistsIntFormula)):
+        c = "FForallInt" if isinstance(f, ForallIntFormula) else "FExistsInt"
+        info["numq"] += 1
+        return f"({c} {g_var(f.bound_variable)} {g_core(f.inner_formula, info)})"
+    raise Unsupported(type(f).__name__)
+
+
+def core_formula(rng, d, scope, ints, cnt):
+    """constraints of the fragment wf_core built through the constructors: opaque s-expression atoms, standard
+    predicates (variable / int / string arguments), negated predicates, BINARY and/or in every nesting position
+    (first child parenthesised, first child a quantifier), forall/exists with name and `in`, numeric quantifiers"""
+    r = rng.random()
+    if d <= 0 or r < 0.25:
+        v = rng.choice(scope)
+        k = rng.random()
+        if k < 0.3:
+            s = rng.choice(['a', 'b c', '(', ')', 'x(y', 'a"b', ';', ':', ',', 'forall', '', ' and ', 'a\nb'])
+            return SMTFormula(z3_eq(v.to_smt(), z3.StringVal(s)), v)
+        if k < 0.45 and len(scope) > 1:
+            w = rng.choice([x for x in scope if x != v])
+            return SMTFormula(z3.PrefixOf(v.to_smt(), w.to_smt()), v, w)
+        if k < 0.55:
+            return SMTFormula(z3.InRe(v.to_smt(), z3.Concat(z3.Re("a"), z3.Star(z3.Range("a", "c")))), v)
+        if k < 0.62 and ints:
+            n = rng.choice(ints)
+            return SMTFormula(z3.StrToInt(n.to_smt()) > z3.Length(v.to_smt()) + z3.IntVal(rng.choice([0, 1, -2])), n, v)
+        if k < 0.8:
+            w = rng.choice(scope)
+            p = StructuralPredicateFormula(SPM[rng.choice(["before", "after", "inside", "same_position", "consecutive"])], v, w)
+            return NegatedFormula(p) if rng.random() < 0.4 else p
+        if k < 0.88:
+            return StructuralPredicateFormula(SPM["nth"], rng.choice([0, 1, 2, -1, "1", 12]), v, rng.choice(scope))
+        if k < 0.93:
+            return StructuralPredicateFormula(SPM["level"], rng.choice(["GE", "EQ"]), rng.choice(["<stmt>", "<assgn>"]), v, rng.choice(scope))
+        n = rng.choice(ints) if ints and rng.random() < 0.6 else rng.choice(["2", 3, 0, -1])
+        p = SemanticPredicateFormula(SEM["count"], v, rng.choice(["<var>", "<assgn>"]), n)
+        return NegatedFormula(p) if rng.random() < 0.2 else p
+    if r < 0.5:
+        cnt[0] += 1
+        v = BoundVariable(rng.choice([f"w{cnt[0]}", f"var_{cnt[0]}", f"x-{cnt[0]}.y", f"V{cnt[0]}^"]), rng.choice(["<var>", "<assgn>", "<rhs>", "<stmt>"]))
+        q = ForallFormula if rng.random() < 0.5 else ExistsFormula
+        return q(v, rng.choice(scope), core_formula(rng, d - 1, scope + [v], ints, cnt))
+    if r < 0.6:
+        cnt[0] += 1
+        n = BoundVariable(f"n{cnt[0]}", Variable.NUMERIC_NTYPE)
+        q = ForallIntFormula if rng.random() < 0.5 else ExistsIntFormula
+        return q(n, core_formula(rng, d - 1, scope, ints + [n], cnt))
+    c = ConjunctiveFormula if rng.random() < 0.5 else DisjunctiveFormula
+    for _ in range(20):
+        a, b = core_formula(rng, d - 1, scope, ints, cnt), core_formula(rng, d - 1, scope, ints, cnt)
+        if a != b and a != -b and b != -a:       # Formula.__and__/__or__ collapse these (not part of the fragment)
+            return c(a, b)
+    return a
+
+
+def core_cases(run, rng, n_gen, pool, hist):
+    """stream `core`: for constraints of the fragment (decided in Coq: wf_coreb), parse_core of the printed text
+    = canonical AST of parse_isla of that text = the constraint itself; the printed text = model text"""
+    g = GRAMMARS["assgn"]
+    cands = []           # (formula, origin)
+    for i in range(n_gen):
+        cands.append((core_formula(rng, rng.randint(0, 4), [Constant("start", "<start>")], [], [0]), "core-gen"))
+    cands += [(f, "pool") for f in pool]
+    lits, keep, skipped_const = [], [], 0
+    for f, origin in cands:
+        try:
+            lit = g_core(f, new_info())
+            text = unparse_isla(f)
+        except Exception:
+            continue
+        if text.startswith("const "):
+            skipped_const += 1      # parse_isla cannot read a const header (AttributeError in exitConstDecl, design note defect 6)
+            continue
+        lits.append(lit)
+        keep.append((f, origin, lit, text))
+    h = {"candidates": len(keep), "const_header_skipped": skipped_const, "in_fragment": 0, "in_fragment_generated": 0, "in_fragment_from_parsed_sources": 0,
+         "multi_line": 0, "connective_first_child_parenthesised": 0, "connective_first_child_quantifier": 0}
+    hist["core_fragment"] = h
+    try:
+        infrag, dt1 = lib.coq_mismatches("c07d", "Outcome Unparse ParseCore ParseCoreFacts ParseCoreMore",
+                                         "fun f : cformula => negb (wf_coreb f)", lits, shard=100)
+    except RuntimeError as e:
+        run.violation({"kind": "correspondence-not-evaluable", "obligation": "ParseCore.v wf_coreb cases", "error": str(e)[-2000:]},
+                      found_input=False)
+        return []
+    cases, meta = [], []
+    for i in infrag:
+        f, origin, lit, text = keep[i]
+        o = outcome(parse_isla, text, g, SP, SE)
+        back, why = "None", None
+        if o[0] == "ok":
+            try:
+                back = f"(Some {g_core(o[1], new_info())})"
+            except Unsupported:
+                back = "None"
+            if o[1] != f:
+                why = "re-parsed constraint differs"
+        else:
+            why = f"re-parse raises {o[1]}"
+        cases.append(f"({lit}, {g_str(text)}, {back})")
+        meta.append({"constraint_text": text, "origin": origin, "impl_reparse": why or "equal", "grammar": "assgn"})
+        h["in_fragment"] += 1
+        h["in_fragment_generated" if origin == "core-gen" else "in_fragment_from_parsed_sources"] += 1
+        h["multi_line"] += "\n" in text
+        h["connective_first_child_parenthesised"] += "((" in text
+        h["connective_first_child_quantifier"] += "(forall" in text or "(exists" in text
+        run.count(("core", text), "\n" in text and ("(forall" in text or "(exists" in text or "((" in text))
+        if why is not None:
+            run.violation({"kind": "unparse/parse round trip fails on the implementation inside the proved fragment wf_core",
+                           "witness": {"constraint": text, "grammar": "assgn", "fails": why}})
+    try:
+        bad, dt2 = lib.coq_mismatches("c07e", "Outcome Unparse ParseCore ParseCoreFacts ParseCoreMore",
+                                      "core_case_ok", cases, shard=60)
+        run.cov["coq_seconds_core"] = round(dt1 + dt2, 1)
+        return [dict(meta[i], obligation="parse_core (ParseCore.v) <-> parse_isla on the core fragment") for i in bad]
+    except RuntimeError as e:
+        run.violation({"kind": "correspondence-not-evaluable", "obligation": "ParseCore.v parse_core cases", "error": str(e)[-2000:]},
+                      found_input=False)
+        return []
+
+
 # ---------------------------------------------------------------- known findings
 def findings():
     """harness/meta/C07.findings.json is the source from which known_findings.json is generated; read it
@@ -684,11 +865,12 @@ def run(run):
     # ---- string literal codec and fresh names ----
     codec_bad = codec_cases(run, rng, 500 if thorough else 160, hist)
     fresh_bad = fresh_cases(run, rng, 400 if thorough else 120)
+    core_bad = core_cases(run, rng, 1500 if thorough else 150, [m[4] for m in meta][: (3000 if thorough else 400)], hist)
 
     hist["ops"] = dict(sorted(hist["ops"].items(), key=lambda kv: -kv[1]))
     run.cov["histogram"] = hist
     run.cov["formulas_tied"] = len(cases)
-    run.cov["disagreements_checked"] = len(disagreements) + len(codec_bad) + len(fresh_bad)
+    run.cov["disagreements_checked"] = len(disagreements) + len(codec_bad) + len(fresh_bad) + len(core_bad)
 
     if failures:
         failures.sort(key=lambda d: len(d["constraint"]))
@@ -701,12 +883,13 @@ def run(run):
     bad_with_input = [d for d in disagreements if d["property_at_input"] != "holds"]
     if bad_with_input and not failures:
         run.violation({"kind": "printer differs from model and the round trip fails", "witness": bad_with_input[0]})
-    elif disagreements or codec_bad or fresh_bad:
-        first = (disagreements or codec_bad or fresh_bad)[0]
+    elif disagreements or codec_bad or fresh_bad or core_bad:
+        first = (disagreements or codec_bad or fresh_bad or core_bad)[0]
         run.violation({"kind": ("correspondence broken; failing inputs are reported by the other VIOLATION of this run" if failures else
                                 "correspondence broken, round trip holds on the searched inputs"), "first": first,
-                       "count": len(disagreements) + len(codec_bad) + len(fresh_bad),
-                       "obligation": "correspondence Unparse.v <-> isla.language.ISLaUnparser / z3_helpers.smt_expr_to_str / fresh_variable"},
+                       "count": len(disagreements) + len(codec_bad) + len(fresh_bad) + len(core_bad),
+                       "obligation": (first.get("obligation") if isinstance(first, dict) and first.get("obligation") and not disagreements else
+                                      "correspondence Unparse.v <-> isla.language.ISLaUnparser / z3_helpers.smt_expr_to_str / fresh_variable")},
                       found_input=False)
     if not proof_ok:
         run.violation({"kind": "proof obligation failed", "problems": run.proof_problems,
